@@ -842,6 +842,24 @@ func playFile(events []fileEvent, m *module, lists [][]any) (string, bool) {
 				return err.Error(), true
 			}
 			want = nil
+		case 4, 5: // the file is renamed away and a new file is put in its place (list A / list B)
+			l := lists[1+ev.kind-4]
+			if err := os.Rename(path, path+fmt.Sprint(".old", i)); err != nil {
+				return err.Error(), true
+			}
+			if err := os.WriteFile(path, m.encode(l), 0o644); err != nil {
+				return err.Error(), true
+			}
+			want = sortedKeys(m, l)
+		case 6, 7: // atomic replacement: the new content is written beside the file and renamed over it
+			l := lists[1+ev.kind-6]
+			if err := os.WriteFile(path+".tmp", m.encode(l), 0o644); err != nil {
+				return err.Error(), true
+			}
+			if err := os.Rename(path+".tmp", path); err != nil {
+				return err.Error(), true
+			}
+			want = sortedKeys(m, l)
 		}
 		if !waitFor(func() bool { return fmt.Sprint(m.current()) == fmt.Sprint(want) }, 10*time.Second) {
 			return fmt.Sprintf("event %d (kind %d): rules in force %v, file content describes %v", i, ev.kind, m.current(), want), false
@@ -852,6 +870,8 @@ func playFile(events []fileEvent, m *module, lists [][]any) (string, bool) {
 	}
 	return "", false
 }
+
+var eventKinds = []int{0, 1, 0, 1, 2, 3, 4, 5}
 
 func TestFileDatasource(t *testing.T) {
 	hx.Check(t, hx.N{Quick: 20, Thorough: 40}, func(t *rapid.T, c *hx.Case) {
@@ -869,7 +889,7 @@ func TestFileDatasource(t *testing.T) {
 		var events []fileEvent
 		ne := rapid.IntRange(1, 5).Draw(t, "events")
 		for i := 0; i < ne; i++ {
-			events = append(events, fileEvent{rapid.SampledFrom([]int{0, 1, 0, 1, 2, 3}).Draw(t, "event")})
+			events = append(events, fileEvent{rapid.SampledFrom(eventKinds).Draw(t, "event")})
 		}
 		c.Op("module=%s events=%v", m.name, events)
 		var msg string
